@@ -77,14 +77,14 @@ def cli_json_of(doc: dict) -> dict:
             "routines": routines}
 
 
-def make_pool(pool_seed: int) -> dict:
+def make_pool(pool_seed: int, sizes=("small", "small", "medium", "medium", "large")) -> dict:
     """Inputs of one batch of histories (pure function of the seed; runs in a fork: it compiles)."""
     sut.quiet_logging()
     rng = seeds.stream(pool_seed, "pool")
     texts = []
     docs = []
     for i in range(rng.randint(3, 5)):
-        size = rng.choice(["small", "small", "medium", "medium", "large"])
+        size = rng.choice(list(sizes))
         k = exps.swarm_knobs(rng, size)
         if i == 0:
             k["features"] = list(exps.ALL_FEATURES)
